@@ -999,6 +999,24 @@ func (f *Frame) cutHeader(n *Node, l *Loop) {
 		}
 	}
 	// 4. assume invariants
+	if l.spec != nil && l.spec.Decreases == nil {
+		// a loop cut at its invariant without a decreases clause: range loops end by construction; for any other loop the
+		// evidence says that its termination is not proved
+		isRange := false
+		for _, phi := range l.phis {
+			if phi.Comment == "rangeindex" {
+				isRange = true
+			}
+		}
+		for _, ins := range l.header.Instrs {
+			if _, ok := ins.(*ssa.Next); ok {
+				isRange = true
+			}
+		}
+		if !isRange {
+			ex.vc.assumeNote(fmt.Sprintf("termination of loop %s of %s is NOT proved (no decreases clause)", l.key, f.fn.Name()))
+		}
+	}
 	if l.spec != nil {
 		sc := f.scope(ns)
 		for _, lt := range l.spec.Lets {
